@@ -327,6 +327,40 @@ def _transparent_decorator(repo, text):
             "wrapper returns %s" % ", ".join(sorted({short(r.value, 30) if r.value is not None else "None" for r in wr})))
 
 
+def _region_hook(nval, sizeval):
+    """decides the tests of conditional expressions in a window formula for one value of n (tests on n and size only)"""
+    def hook(test):
+        names = {x.id for x in ast.walk(test) if isinstance(x, ast.Name)}
+        if not names <= {"n", "size"}:
+            return None
+        try:
+            return bool(eval(compile(ast.Expression(body=test), "<window-test>", "eval"), {"__builtins__": {}},
+                             {"n": nval, "size": sizeval}))
+        except Exception:
+            return None
+    return hook
+
+
+def _fold_trig(rf):
+    """sin / cos at 0 and at pi (what n = 0 and n = size make of sin(pi * n / size)) as numbers; powers are left alone"""
+    from ..ratfun import OPAQUE_ARGS
+    sub = {}
+    for s_ in rf.symbols():
+        info = OPAQUE_ARGS.get(s_)
+        if info and info[0] in ("sin", "cos") and len(info[1]) == 1:
+            a = info[1][0]
+            at0 = a.is_zero()
+            atpi = a == RF.sym("pi")
+            at2pi = a == 2 * RF.sym("pi")
+            if info[0] == "sin" and (at0 or atpi or at2pi):
+                sub[s_] = RF.const(0)
+            elif info[0] == "cos" and (at0 or at2pi):
+                sub[s_] = RF.const(1)
+            elif info[0] == "cos" and atpi:
+                sub[s_] = RF.const(-1)
+    return rf.subst(sub) if sub else rf
+
+
 def run(chk, repo):
     mod = repo.mod(LA)
     W = lambda q: "%s:%s" % (mod.relpath, q)
@@ -505,10 +539,13 @@ def run(chk, repo):
         same_sig = [a.arg for a in pf.args.args] == [a.arg for a in sf.args.args] and \
             [unparse(x) for x in pf.args.defaults] == [unparse(x) for x in sf.args.defaults] and pf.name == sf.name == sname
         okf = False
+        piecewise = False
         if okp and oks:
             try:
-                fp = Evaluator().ev(pb[0].value.elt)
-                fs = Evaluator().ev(sb[2].value.elt)
+                piecewise = any(isinstance(x_, ast.IfExp) for x_ in ast.walk(pb[0].value.elt))
+                # a formula with special cases on n is read region by region: here the interior 0 < n < size
+                fp = Evaluator(ifexp_hook=_region_hook(1, 4)).ev(pb[0].value.elt)
+                fs = Evaluator(ifexp_hook=_region_hook(1, 4)).ev(sb[2].value.elt)
                 okf = fp == fs
             except Inconclusive as ex:
                 raise AnalysisError("window formula of %s not interpretable: %s" % (sname, ex))
@@ -529,6 +566,19 @@ def run(chk, repo):
         else:
             chk.decide(fp == want, "C14.formula", Wn, "F = %s" % d.get("formula"),
                        why="documented closed form is %s" % DOC_FORMS[sname], node=node)
+        if want is not None and piecewise:
+            # ... and at the two edges, where a special case has to agree with the closed form for every parameter value
+            for nval, label in ((0, "n = 0"), (4, "n = size")):
+                try:
+                    got_e = _fold_trig(Evaluator(ifexp_hook=_region_hook(nval, 4)).ev(pb[0].value.elt).subst(
+                        {"n": RF.const(0) if nval == 0 else RF.sym("size")}))
+                    want_e = _fold_trig(want.subst({"n": RF.const(0) if nval == 0 else RF.sym("size")}))
+                except Inconclusive as ex:
+                    raise AnalysisError("window formula of %s at %s not interpretable: %s" % (sname, label, ex))
+                chk.decide(got_e == want_e, "C14.formula", Wn, "F at %s: %s" % (label, got_e.key()[:60]),
+                           why="the special case gives %s where the documented closed form gives %s (they differ for some "
+                               "parameter value, e.g. an exponent of 0: x ** 0 is 1 also at x = 0)"
+                               % (got_e.key()[:60], want_e.key()[:60]), node=node)
         defaults = {a.arg: unparse(v) for a, v in zip(pf.args.args[-len(pf.args.defaults):], pf.args.defaults)} if pf.args.defaults else {}
         wantd = {"blackman": {"alpha": "0.16"}, "cos": {"alpha": "1"}}.get(sname, {})
         if sname in ALIASES:
